@@ -31,8 +31,9 @@ OK_VARIANTS = {"Ok", "Some", "Continue"}
 
 
 class Prov:
-    def __init__(self, fn):
+    def __init__(self, fn, flow=None):
         self.fn = fn
+        self.flow = flow  # optional BoolFlow: restrict reaching definitions to feasible edges of a context
         self.defs = {}
         self._site_term = {}
         self._in_progress = set()
@@ -85,8 +86,10 @@ class Prov:
         pred = fn.pred()
         if bi == 0:
             reaches_entry = True
+        feas = self.flow.edge_feasible if self.flow is not None else None
         for p in pred[bi]:
-            work.append(p)
+            if feas is None or (p, bi) in feas:
+                work.append(p)
         while work:
             b = work.pop()
             if b in seen:
@@ -97,7 +100,7 @@ class Prov:
             if b == 0:
                 reaches_entry = True
             for p in pred[b]:
-                if p not in seen:
+                if p not in seen and (feas is None or (p, b) in feas):
                     work.append(p)
         return whole, partial, reaches_entry
 
@@ -364,10 +367,18 @@ def _contains_rec(t):
     return False
 
 
-def prov_of(fn):
-    if "prov" not in fn._cache:
-        fn._cache["prov"] = Prov(fn)
-    return fn._cache["prov"]
+def prov_of(fn, ctx=None):
+    """Provenance engine of fn; with ctx (dict of bool params) the reaching definitions are
+    restricted to the edges feasible in that context."""
+    if ctx is None:
+        if "prov" not in fn._cache:
+            fn._cache["prov"] = Prov(fn)
+        return fn._cache["prov"]
+    from .preach import flow
+    key = ("prov", tuple(sorted((k, v) for k, v in ctx.items() if v is not None)))
+    if key not in fn._cache:
+        fn._cache[key] = Prov(fn, flow(fn, ctx))
+    return fn._cache[key]
 
 
 # ---------------------------------------------------------------------------
